@@ -52,6 +52,8 @@ def generate(prop, seed, tier):
         G.add_unproductive_cycle(spec, g)
     if g.random() < 0.4:
         G.constant_factors(spec, g)
+    if g.random() < 0.15 and menu != 'inf':
+        G.add_neq_terminal(spec, g, 'small')
     if not vit and g.random() < 0.12:
         # one linear SCC of 3-5 mutually recursive nonterminals (ring + chords): the block elimination order inside the
         # linear solver depends on names and registration order, i.e. on the presentation
@@ -238,6 +240,12 @@ def run_presentation(F, case, pi, cfg, steps):
                             for new, old in enumerate(perm):
                                 inv[old] = new
                             gr = gr.index_select(ax, torch.tensor(inv))
+                    if t.get('pattern') is not None and not t['pattern'].get('expand'):
+                        # a patterned weight has a gradient only for its stored elements; a presentation that had to build the
+                        # same factor densely (permuted domain values) is compared on those positions only
+                        from ..ref.tensor_ref import dense_of_spec
+                        backed = dense_of_spec(t['pattern'], torch.float64)[1] > 0
+                        gr = torch.where(backed, gr, torch.zeros_like(gr))
                     grads[n] = gr.detach()
                 out['grads'] = grads
         except Exception as ex:
